@@ -16,7 +16,7 @@ from clastic.middleware import GzipMiddleware
 from clastic.middleware.stats import StatsMiddleware
 from clastic.static import StaticApplication
 
-from sim.core.base import Check, RunResult, Streams, InvalidPlan, canon
+from sim.core.base import Check, RunResult, Streams, InvalidPlan, HarnessError, canon
 from sim.core.gateway import make_environ, call_app
 from sim.core.seams import Seams, SimClock
 from sim.core.hoststub import HostStub, SITES
@@ -84,6 +84,9 @@ class BadRepr(object):
         raise RuntimeError('repr failed')
 
 
+# secret-named resources whose VALUE is next to nothing (an unset password, a one-letter flag): nothing to disclose, and
+# nothing that may disturb how the OTHER resources are shown
+DEGENERATE = {'emptystr': '', 'emptybytes': b'', 'onechar': 'l', 'onebyte': b'e', 'space': ' '}
 FLAKY = {'broken': False}
 
 
@@ -141,6 +144,8 @@ class BadReprHTTP(object):
 def make_value(kind, marker):
     if kind == 'str':
         return marker
+    if kind in DEGENERATE:
+        return DEGENERATE[kind]
     if kind == 'bytes':
         return marker.encode()
     if kind == 'number':
@@ -220,7 +225,7 @@ class C18(Check):
     level_text = ('Single host-call faults are enumerated completely (every call site x every documented exception and unusual '
                   'value, both views) on a fixed host; host applications and multi-fault plans are sampled.')
     level_note = 'Trusted: the catalogue of what each host call can raise/return (sim/core/hoststub.py).'
-    required_probes = ('failure-report-compared-with-a-fresh-twin', 'section-computable-again-after-it-failed', 'two-clients-on-a-fresh-host', 'host-context-processor-requires-a-secret-resource', 'endpoint-with-unserialisable-defaults', 'equal-but-different-values-listed', 'cookie-key-given-as-text', 'tuple-valued-resource', 'secret-resource-with-failing-repr', 'host-context-names-clash-with-meta-working-names', 'sibling-section-cannot-be-computed', 'host-shares-middleware-type-with-meta', 'secret-redacted-html', 'secret-redacted-json', 'fault-fired-page-200', 'all-calls-failing', 'depth-2',
+    required_probes = ('meta-pages-under-other-interpreter-flags', 'secret-named-resource-with-a-next-to-empty-value', 'failure-report-compared-with-a-fresh-twin', 'section-computable-again-after-it-failed', 'two-clients-on-a-fresh-host', 'host-context-processor-requires-a-secret-resource', 'endpoint-with-unserialisable-defaults', 'equal-but-different-values-listed', 'cookie-key-given-as-text', 'tuple-valued-resource', 'secret-resource-with-failing-repr', 'host-context-names-clash-with-meta-working-names', 'sibling-section-cannot-be-computed', 'host-shares-middleware-type-with-meta', 'secret-redacted-html', 'secret-redacted-json', 'fault-fired-page-200', 'all-calls-failing', 'depth-2',
                        'plain-visible', 'bad-repr-section-inline', 'cookie-mw-present')
 
     # ---- generation --------------------------------------------------------
@@ -235,6 +240,8 @@ class C18(Check):
                     kind = 'flaky'
                 elif n in PLAIN_NAMES and rng.random() < 0.15:
                     kind = rng.choice(['badrepr', 'badrepr-http', 'badrepr-quoting', 'badrepr-surrogate', 'badrepr-badstr', 'badrepr-self', 'badrepr-self'])
+                elif n in SECRET_NAMES and rng.random() < 0.15:
+                    kind = rng.choice(sorted(DEGENERATE))
                 elif n in SECRET_NAMES and rng.random() < 0.2:
                     # a secret whose repr() would fail: nobody has any business calling it
                     kind = rng.choice(['badrepr', 'badrepr-quoting', 'badrepr-quoting'])
@@ -295,6 +302,9 @@ class C18(Check):
                 ops.append({'view': view, 'faults': allf})
         for k in range(0, len(ops), 60):
             yield {'world': 'meta', 'seed': base_seed, 'config': cfg, 'ops': ops[k:k + 60], 'sweep': True}
+        # the host runs in an interpreter started with other flags (optimisation levels strip asserts and docstrings)
+        for flags in ([['-OO'], ['-O']] if tier == 'quick' else [['-OO'], ['-O'], ['-X', 'utf8'], ['-OO', '-X', 'utf8'], ['-X', 'dev'], ['-s', '-OO']]):
+            yield {'world': 'meta', 'seed': base_seed, 'config': cfg, 'ops': [], 'interp': {'flags': flags, 'prefix': '/_meta/'}}
         # two clients at once on a freshly built host (a threaded server's first moments): client A is parked at its k-th
         # line inside the framework, client B is served completely, then A goes on -- for every k (quick: every 3rd / 8th)
         for va, vb, stride in (('json', 'json', 3), ('html', 'json', 8), ('json', 'html', 8), ('html', 'html', 8)):
@@ -302,6 +312,70 @@ class C18(Check):
             ks = list(range(1, n + 1, stride if tier == 'quick' else 1))
             for j in range(0, len(ks), 20):
                 yield {'world': 'meta', 'seed': base_seed, 'config': cfg, 'ops': [], 'conc': {'views': [va, vb], 'ks': ks[j:j + 20]}}
+
+    INTERP_SCRIPT = r'''
+import json, sys
+out = {'stage': 'import'}
+try:
+    spec = json.loads(sys.stdin.read())
+    sys.path.insert(0, spec['repo'])
+    import warnings
+    warnings.simplefilter('ignore')
+    from clastic import Application, Response
+    from clastic.meta import MetaApplication
+    out['stage'] = 'construct'
+    app = Application([('/', lambda: Response('hello')), (spec['prefix'], MetaApplication())], resources=spec['resources'])
+    out['stage'] = 'request'
+    from werkzeug.test import Client
+    pages = {}
+    for view, path in (('html', spec['prefix']), ('json', spec['prefix'] + 'json/')):
+        r = Client(app, Response).get(path)
+        pages[view] = [r.status_code, r.get_data().decode('utf8', 'replace')]
+    out = {'stage': 'done', 'pages': pages}
+except BaseException as e:
+    out['error'] = '%s: %s' % (type(e).__name__, e)
+sys.stdout.write(json.dumps(out))
+'''
+
+    def execute_interp(self, plan):
+        import subprocess
+        import sys
+        res = RunResult()
+        spec = plan['interp']
+        env = dict(os.environ)
+        env.pop('PYTHONOPTIMIZE', None)
+        env.pop('SIM_STAGE', None)
+        resources = {'secret_key': 'S3CR3T-interp-1-VALUE', 'db_secret_pw': 'S3CR3T-interp-2-VALUE', 'greeting': 'PLAINV-interp-3-VALUE', 'limits': 'PLAINV-interp-4-VALUE'}
+        p = subprocess.run([sys.executable] + spec['flags'] + ['-c', self.INTERP_SCRIPT], env=env, timeout=120, stdout=subprocess.PIPE, stderr=subprocess.PIPE,
+                           input=json.dumps({'repo': os.path.abspath(os.environ.get('VERIF_REPO', '/repo')), 'prefix': spec['prefix'], 'resources': resources}).encode('ascii'))
+        res.steps = 1
+        res.nontrivial = True
+        res.fire('interpreter_flags:' + ' '.join(spec['flags']))
+        res.probe('meta-pages-under-other-interpreter-flags')
+        res.sigs.add('interp|%s' % ' '.join(spec['flags']))
+        try:
+            out = json.loads(p.stdout.decode('utf8'))
+        except ValueError:
+            raise HarnessError('interpreter %s gave no result: rc=%s %s' % (spec['flags'], p.returncode, p.stderr[-400:].decode('utf8', 'replace')))
+        res.ev('interp', ' '.join(spec['flags']), out['stage'], out.get('error', '')[:80])
+        ctx = 'python %s: host with 4 resources, meta at %s' % (' '.join(spec['flags']), spec['prefix'])
+        if out['stage'] != 'done':
+            res.violate('C18/interpreter-flags/meta-not-available@%s' % out['stage'], ctx + ' -> %s' % out.get('error'))
+            return res
+        serving = dict((n, ('str', v)) for n, v in resources.items())
+        for view in ('html', 'json'):
+            code, body = out['pages'][view]
+            if code != 200:
+                res.violate('C18/interpreter-flags/page-status-%s:%s' % (code, view), ctx + ' -> %s' % code)
+                return res
+            if 'S3CR3T' in body:
+                res.violate('C18/interpreter-flags/secret-disclosed:%s' % view, ctx)
+                return res
+            bad = self.check_resources(view, body, serving, res)
+            if bad:
+                res.violate('C18/interpreter-flags/' + bad[0] + ':' + view, ctx + ' -> ' + bad[1])
+                return res
+        return res
 
     _CONC_N = {}
 
@@ -375,6 +449,7 @@ class C18(Check):
 
     # ---- execution ---------------------------------------------------------
     def build(self, cfg):
+        self._degenerate = False
         secrets = []    # (marker forms) of every secret-named resource at any level
         serving = {}    # resources of the serving (outermost) application: name -> (kind, marker)
         n = [0]
@@ -385,7 +460,9 @@ class C18(Check):
                 n[0] += 1
                 marker = ('S3CR3T' if 'secret' in r['name'] else 'PLAINV') + '-%s-%d-VALUE' % (level, n[0])
                 out[r['name']] = make_value(r['kind'], marker)
-                if 'secret' in r['name']:
+                if 'secret' in r['name'] and r['kind'] in DEGENERATE:
+                    self._degenerate = True
+                elif 'secret' in r['name']:
                     # any recognisable part of the value counts: the distinctive head of the marker
                     secrets.extend(f[:12] if r['kind'] == 'number' else f[:6] for f in marker_forms(r['kind'], marker))
                 yield_info[(level, r['name'])] = (r['kind'], marker)
@@ -449,6 +526,8 @@ class C18(Check):
     def execute(self, plan):
         if plan.get('conc'):
             return self.execute_conc(plan)
+        if plan.get('interp'):
+            return self.execute_interp(plan)
         res = RunResult()
         cfg = plan['config']
         K = 'C18/'
@@ -470,6 +549,8 @@ class C18(Check):
                 res.probe('host-shares-middleware-type-with-meta')
             if 'badrepr-mw' in cfg.get('host_mws', []):
                 res.probe('sibling-section-cannot-be-computed')
+            if self._degenerate:
+                res.probe('secret-named-resource-with-a-next-to-empty-value')
             if cfg['depth'] == 2:
                 res.probe('depth-2')
             if cfg.get('exotic_defaults'):
